@@ -3,6 +3,7 @@
    Nothing here knows anything about any property: decoders, models and
    monitors are all extracted Coq. *)
 open Bbs
+open Judges
 
 (* ---- OCaml int / decimal string <-> Coq Z ---- *)
 let rec pos_of_int (n : int) : positive =
@@ -101,12 +102,6 @@ let rec print_sx (b : Buffer.t) (s : sx) : unit =
       Buffer.add_char b ')'
 
 let sx_to_string s = let b = Buffer.create 256 in print_sx b s; Buffer.contents b
-
-let judge_of (prop : string) : sx -> sx -> sx =
-  match prop with
-  | "C12" -> judge12
-  | "C18" -> judge18
-  | _ -> failwith ("unknown property " ^ prop)
 
 let () =
   let prop = Sys.argv.(1) in
